@@ -7,7 +7,7 @@ namespace LaytheVerif.Scope
 
 /-- no identifier of the program is spelled like the hidden slot-0 variable -/
 def namesOk : Tm → Bool
-  | .nil | .lit _ | .str _ => true
+  | .nil | .lit _ | .str _ | .nilE | .letN _ _ => true
   | .seq a b => namesOk a && namesOk b
   | .var _ x => x != UNINITIALIZED_VAR
   | .assign _ x e => x != UNINITIALIZED_VAR && namesOk e
@@ -307,6 +307,8 @@ theorem res_method (k : FunKind) (m : Name) (t0 : Table) (d0 : Nat) (ps : List P
        (res body (rs.enterFn k d0 ps)).2.exitFn) := rfl
 theorem res_let (d : Nat) (x : Name) (e : Tm) :
     res (.letS d x e) rs = (.letS d x (res e (rs.declare d x)).1, (res e (rs.declare d x)).2.define x) := rfl
+theorem res_nilE : res .nilE rs = (.nilE, rs) := rfl
+theorem res_letN (d : Nat) (x : Name) : res (.letN d x) rs = (.letN d x, (rs.declare d x).define x) := rfl
 theorem res_fn (d : Nat) (f : Name) (t0 : Table) (d0 : Nat) (ps : List Param) (body : Tm) :
     res (.fnS d f t0 d0 ps body) rs =
       (.fnS d f (res body ((rs.declareDefine d f).enterFn .fn d0 ps)).2.endScope.1 d0 ps (res body ((rs.declareDefine d f).enterFn .fn d0 ps)).1,
@@ -402,6 +404,13 @@ theorem res_inv (t : Tm) : ResIH t := by
   | nil => intro rs _ h; exact ⟨RStep.refl h, fun _ => rfl⟩
   | lit n => intro rs _ h; exact ⟨RStep.refl h, fun _ => rfl⟩
   | str s => intro rs _ h; exact ⟨RStep.refl h, fun _ => rfl⟩
+  | nilE => intro rs _ h; exact ⟨RStep.refl h, fun _ => rfl⟩
+  | letN d x =>
+    intro rs _ h
+    rw [res_letN]
+    have s1 : RStep (rs.declare d x) rs := declare_ok rs d x h
+    have s2 : RStep ((rs.declare d x).define x) (rs.declare d x) := define_ok _ x s1.1
+    exact ⟨s2.trans s1, fun _ => rfl⟩
   | seq a b iha ihb =>
     intro rs hn h
     simp only [namesOk, Bool.and_eq_true] at hn
